@@ -17,6 +17,16 @@ FM = {"f1": {"k": "1", "j": "1"}, "f2": {"k": "2", "j": "1"}, "f3": {"k": "1", "
       "k1": {"k": "1"}, "j1": {"j": "1"}, "k2": {"k": "2"}}
 
 
+def fm(tok):
+    """Concrete field dictionary of a token.  The values of key `j` are source LOCATIONS (lines 3 and 7) - the kind of
+    value tool feedback carries in its fields and instructors name when suppressing one particular report."""
+    from pedal.core.location import Location
+    d = dict(FM[tok])
+    if "j" in d:
+        d["j"] = Location(3) if d["j"] == "1" else Location(7)
+    return d
+
+
 def build(fbs_abs, supp_abs, style=0):
     from pedal.core.report import Report
     from pedal.core.feedback import Feedback
@@ -34,15 +44,15 @@ def apply_supp(report, s):
     if k == "cat":
         report.suppress(s["cat"])
     elif k == "catf":
-        report.suppress(s["cat"], fields=dict(FM[s["fld"]]))
+        report.suppress(s["cat"], fields=fm(s["fld"]))
     elif k == "catlabel":
         report.suppress(s["cat"], s["label"])
     elif k == "catlabelf":
-        report.suppress(s["cat"], s["label"], dict(FM[s["fld"]]))
+        report.suppress(s["cat"], s["label"], fm(s["fld"]))
     elif k == "label":
         report.suppress(label=s["label"])
     elif k == "labelf":
-        report.suppress(label=s["label"], fields=dict(FM[s["fld"]]))
+        report.suppress(label=s["label"], fields=fm(s["fld"]))
     else:
         raise ValueError(k)
 
@@ -63,7 +73,7 @@ def make_feedback(report, f, i, style=0, parent=None):
         kw["else_message"] = "e%d" % i
     if parent is not None:
         kw["parent"] = parent
-    fields = dict(FM[f["flds"]])
+    fields = fm(f["flds"])
     if style % 2 == 0:
         return Feedback(fields=fields, activate=f["trig"], report=report, **kw)
     # generated instructor subclass: attributes on the class, custom condition
